@@ -295,6 +295,7 @@ class TermAnalysis(Analysis):
         self.assigned = self._assigned_names(fn.node)
         self._inl: List[tuple] = []          # (kind, pc, exc) collected while evaluating one statement / test
         self._inlined_calls: set = set()     # ids of call nodes replaced by the value of an inlined helper
+        self._closure_consts: Dict[str, Dict[str, Term]] = {}   # nested function -> constants it captures from this function
         self.inline_depth = 0
 
     # -------------------------------------------------------------- setup
@@ -314,6 +315,10 @@ class TermAnalysis(Analysis):
         env = {}
         for p in self.param_names:
             env[p] = self.args.get(p, ("param", p))
+        # closure constants handed to an inlined nested function (names it reads from the enclosing function)
+        for k, v in self.args.items():
+            if k.startswith("<closure>"):
+                env[k[len("<closure>"):]] = v
         return State(env)
 
     # -------------------------------------------------------------- domain ops
@@ -929,8 +934,32 @@ class TermAnalysis(Analysis):
         own = {x.arg for x in a.posonlyargs + a.args + a.kwonlyargs} | ({a.vararg.arg} if a.vararg else set()) | ({a.kwarg.arg} if a.kwarg else set())
         own |= {n.id for n in ast.walk(node) if isinstance(n, ast.Name) and isinstance(n.ctx, ast.Store)}
         free = {n.id for n in ast.walk(node) if isinstance(n, ast.Name) and isinstance(n.ctx, ast.Load)} - own
-        if free & (set(self.assigned) | set(self.param_names)) or any(isinstance(n, (ast.Nonlocal, ast.Global, ast.Yield, ast.YieldFrom, ast.Lambda)) for n in ast.walk(node)):
+        captured = free & (set(self.assigned) | set(self.param_names))
+        if any(isinstance(n, (ast.Nonlocal, ast.Global, ast.Yield, ast.YieldFrom, ast.Lambda)) for n in ast.walk(node)):
             return None
+        if captured:
+            # only constants of the enclosing function may be captured: names bound exactly once, at its top level, to a literal
+            consts = {}
+            for st_ in self.fn.node.body:
+                if isinstance(st_, ast.Assign) and len(st_.targets) == 1:
+                    tg, vals = st_.targets[0], st_.value
+                    pairs = [(tg, vals)] if isinstance(tg, ast.Name) else (list(zip(tg.elts, vals.elts)) if isinstance(tg, ast.Tuple) and isinstance(vals, ast.Tuple)
+                                                                           and len(tg.elts) == len(vals.elts) else [])
+                    for t_, v_ in pairs:
+                        if isinstance(t_, ast.Name):
+                            consts[t_.id] = v_
+            stores = {}
+            for n in ast.walk(self.fn.node):
+                if isinstance(n, ast.Name) and isinstance(n.ctx, ast.Store):
+                    stores[n.id] = stores.get(n.id, 0) + 1
+            for c in captured:
+                if c not in consts or stores.get(c, 0) != 1 or c in self.param_names:
+                    return None
+                try:
+                    self.prog.fold(consts[c], self.m, self.cls)
+                except Exception:
+                    return None
+            self._closure_consts[name] = {c: const(self.prog.fold(consts[c], self.m, self.cls)) for c in captured}
         return FuncInfo(name=name, qual=f"{self.fn.qual}.<locals>.{name}", module=self.m, node=node, cls=None, kind="function")
 
     def inline(self, e: ast.Call, t: Term, st: State, callee: Optional[FuncInfo] = None) -> Optional[Term]:
@@ -941,6 +970,8 @@ class TermAnalysis(Analysis):
         if self.inline_depth >= 4 or callee.qual == self.fn.qual or callee.is_async and any(isinstance(n, (ast.Yield, ast.YieldFrom)) for n in ast.walk(callee.node)):
             return None
         amap = bind_args(callee, t[2], t[3])
+        for c_, v_ in self._closure_consts.get(callee.name, {}).items() if callee.qual.startswith(self.fn.qual + ".<locals>.") else ():
+            amap["<closure>" + c_] = v_
         # defaults for parameters that were not passed
         a = callee.node.args
         pos = a.posonlyargs + a.args
@@ -1281,7 +1312,8 @@ class TermEngine(Engine):
             else:
                 exits.append(exit_state)
         for b in body_out.breaks:
-            exits.append(State(b.env, widened.pc))
+            # what held when the loop was left through `break` still holds after it (nothing runs in between)
+            exits.append(State(b.env, b.pc))
         j = self._join(exits)
         if j is not None:
             out.normal.append(j)
